@@ -29,6 +29,10 @@ func ZZNewRemote(addr string, m *zzmodel.Replica) *Remote {
 // monitor channel and returns.
 func (r *Remote) ZZInjectMonitorError(err error) { r.monitorChan <- err }
 
+// ZZInjectConnectionClosed models the rpc client reporting a broken data connection
+// on closeChan: monitorPing then delivers nil on the monitor channel (a clean stop).
+func (r *Remote) ZZInjectConnectionClosed() { r.closeChan <- struct{}{} }
+
 // redirect targets ---------------------------------------------------------
 
 func zzDoAction(r *Remote, action string, obj interface{}) error {
